@@ -257,7 +257,7 @@ class ForcePlatformsDataBlock(Block):
         if not isinstance(o, ForcePlatformsDataBlock):
             return False
         return (
-            self.start_time == o.start_time
+            f32.btype.type(self.start_time) == f32.btype.type(o.start_time)
             and self.frequency == o.frequency
             and self.n_frames == o.n_frames
             and np.array_equal(self._plat_map, o._plat_map)
